@@ -338,18 +338,22 @@ func (R *Repository) updateCrlEntry(entry *Entry, newChains *core.CertificateCha
 	if err != nil {
 		return err
 	}
-	R.logger.Info("verify crl signature of crl " + entry.CRLLoader.GetDescription())
-	signatureCert, err := verifyCRLSignature(result, chains)
-	if err != nil {
-		R.setLastSignatureVerifyFailed(entry, result)
-		return err
-	} else {
-		R.resetLastSignatureVerifyFailed(entry)
-	}
-
-	err = processor.UpdateSignatureCertificate(signatureCert)
-	if err != nil {
-		return err
+	if R.crlConfig.SignatureValidationModeParsed != config.SignatureValidationModeNone {
+		R.logger.Info("verify crl signature of crl " + entry.CRLLoader.GetDescription())
+		signatureCert, verifyErr := verifyCRLSignature(result, chains)
+		if verifyErr != nil {
+			R.setLastSignatureVerifyFailed(entry, result)
+			R.logger.Warn("could not validate signature of crl", zap.String("crl", entry.CRLLoader.GetDescription()))
+			if R.crlConfig.SignatureValidationModeParsed == config.SignatureValidationModeVerify {
+				return verifyErr
+			}
+		} else {
+			R.resetLastSignatureVerifyFailed(entry)
+			err = processor.UpdateSignatureCertificate(signatureCert)
+			if err != nil {
+				return err
+			}
+		}
 	}
 
 	err = R.updateEntry(entry, err, store)
